@@ -39,6 +39,7 @@ type Driver struct {
 }
 
 type Drivers struct {
+	Dropped   map[string]string // optional (random) grammars gocc refused
 	Broken    map[string]string // grammar id -> compiler output: generated code that does not build
 	Dir       string            // scratch module
 	List      []*Driver
@@ -112,14 +113,32 @@ func BuildDrivers(g *Gocc, grammars []*corpus.Grammar, variants []Variant, race 
 			out, err := scratch.Run(dir, []string{"PATH=/usr/bin:/bin", "HOME=" + d.Dir, "GOPATH=" + filepath.Join(d.Dir, "gopath")}, g.Real, args...)
 			if err != nil {
 				j.err = fmt.Errorf("gocc %v on workload grammar %s: %v: %s", args, j.gr.ID, err, out)
+			} else if j.gr.Optional && strings.Contains(out, "conflicts") {
+				j.err = fmt.Errorf("gocc reports conflicts on %s: %s", j.gr.ID, out)
 			}
 		}(j)
 	}
 	wg.Wait()
+	d.Dropped = map[string]string{}
 	for _, j := range jobs {
 		if j.err != nil {
+			if j.gr.Optional {
+				d.Dropped[j.gr.ID] = j.err.Error()
+				continue
+			}
 			return nil, fmt.Errorf("WORKLOAD-INVALID: %v", j.err)
 		}
+	}
+	if len(d.Dropped) > 0 {
+		var keep []*Driver
+		for _, drv := range d.List {
+			if _, bad := d.Dropped[drv.Grammar.ID]; bad {
+				os.RemoveAll(filepath.Join(d.Dir, "gen", dirName(drv.Grammar.ID)))
+				continue
+			}
+			keep = append(keep, drv)
+		}
+		d.List = keep
 	}
 	// Generated code that does not compile: find out which grammars, drop them
 	// from the driver list and let the check decide what that means.
